@@ -52,9 +52,10 @@ def run_shards(prop, shards, seed):
     n = len(shards)
     results = [None] * n
     # longest budgets first, then small batches handed out dynamically
-    order = sorted(range(n), key=lambda i: -shards[i]['budget_s'])
-    bsize = max(1, min(8, n // (NPROC * 3)))
-    batches = [order[i:i + bsize] for i in range(0, n, bsize)]
+    order = sorted(range(n), key=lambda i: (-shards[i].get('cost', 0), -shards[i]['budget_s']))
+    bsize = max(1, min(8, n // (NPROC * 8)))
+    nb = (n + bsize - 1) // bsize
+    batches = [order[i::nb] for i in range(nb)]      # strided: neighbouring (similar-cost) shards go to different batches
     running = {}
     bi = 0
 
@@ -108,6 +109,7 @@ def cmd_run(prop, tier):
     from sx import known, adapt_list
     shards = mod.shards(tier)
     results = run_shards(prop, shards, seed)
+    t_shards = time.monotonic() - t0
     kf = known.load(prop)
     kf_by_id = {e['id']: e for e in kf}
     exit_code = 0
@@ -285,6 +287,7 @@ def cmd_run(prop, tier):
     )
     with open(os.path.join(EVID, prop + '.json'), 'w') as f:
         json.dump(ev, f, indent=1)
+    print('shard phase %.1fs' % t_shards, file=sys.stderr)
     print('%s tier=%s paths=%d confirmed=%d nontrivial=%d unknown=%d ignored=%d queries=%d solver_s=%.1f exhaustive=%s '
           'known_hits=%s wall=%.1fs exit=%d' % (prop, tier, agg['paths'], agg['confirmed'], agg['nontrivial'], agg['unknown'],
                                                agg['ignored'], agg['queries'], agg['solver_s'], exhaustive,
